@@ -110,20 +110,20 @@ def C03.w2Acts : List Act :=
 /-- W1 (F05): a step fails, its retry is scheduled 3 s ahead, and the idle check that was
 queued by the same tick announces idleness while the retry sits in the timer heap. -/
 theorem C03_refuted_timer :
-    let r := Runner.run C03.w1Cfg (fun _ _ _ _ => some 3) (Runner.init C03.w1Cfg initState 0 (some C03.startEv) none) C03.w1Acts
-    let r' := r.step C03.w1Cfg (fun _ _ _ _ => some 3) .drain
+    let r := Runner.run C03.w1Cfg (fun _ _ _ _ => .retry 3) (Runner.init C03.w1Cfg initState 0 (some C03.startEv) none) C03.w1Acts
+    let r' := r.step C03.w1Cfg (fun _ _ _ _ => .retry 3) .drain
     r'.stream = r.stream ++ [.idle] ∧ C03.TrulyIdle r' = false := by decide
 
 /-- W2 (F06): a step did `ctx.send_event(X)`; the tick is in the mailbox when the step's
 result is reduced, but the idle check is processed before the next mailbox pull. -/
 theorem C03_refuted_mailbox :
-    let r := Runner.run C03.w2Cfg (fun _ _ _ _ => none) (Runner.init C03.w2Cfg initState 0 (some C03.startEv) none) C03.w2Acts
-    let r' := r.step C03.w2Cfg (fun _ _ _ _ => none) .drain
+    let r := Runner.run C03.w2Cfg (fun _ _ _ _ => .stop) (Runner.init C03.w2Cfg initState 0 (some C03.startEv) none) C03.w2Acts
+    let r' := r.step C03.w2Cfg (fun _ _ _ _ => .stop) .drain
     r'.stream = r.stream ++ [.idle] ∧ C03.TrulyIdle r' = false := by decide
 
 theorem C03_refuted : ¬ C03_idle_sound_statement := by
   intro h
-  have h1 := h C03.w1Cfg (fun _ _ _ _ => some 3) C03.startEv C03.w1Acts .drain
+  have h1 := h C03.w1Cfg (fun _ _ _ _ => .retry 3) C03.startEv C03.w1Acts .drain
   have h2 := C03_refuted_timer
   simp only at h1 h2
   rw [h1 h2.1] at h2
@@ -132,6 +132,6 @@ theorem C03_refuted : ¬ C03_idle_sound_statement := by
 /-! Non-vacuity of the positive theorems -/
 example : C03.w2Cfg.WF := by simp [Cfg.WF, Cfg.names, C03.w2Cfg]
 example :
-    let r := C03.reach C03.w2Cfg (fun _ _ _ _ => none) initState 0
+    let r := C03.reach C03.w2Cfg (fun _ _ _ _ => .stop) initState 0
       [(.addEvent { ev := C03.xEv } none, 0), (.addEvent { ev := { C03.xEv with uid := 3 } } none, 0)]
     (r.2, ((r.1.workers 1).queue.length, (r.1.workers 1).inProg.length)) = (false, (1, 1)) := by decide
